@@ -59,7 +59,16 @@ def add_mr_insertions(resp, var_alias, items):
 def lean_dim(items, mr_ins):
     return {"items": [{"id": it["id"], "alias": it["alias"], "subvar_id": it["subvar_id"],
                        "anchor": bool(it.get("anchor")), "derived": bool(it.get("derived"))} for it in items],
-            "mr_ins": mr_ins}
+            "mr_ins": mr_ins, "no_subvar_ids": any(it.get("no_id") for it in items)}
+
+
+def drop_subvar_ids(resp, var_alias, items):
+    """remove the optional `value.id` from the elements of the items flagged `no_id`"""
+    for dim in resp["result"]["dimensions"]:
+        if dim["references"].get("alias") == var_alias and dim["type"]["class"] == "enum":
+            for el, it in zip(dim["type"]["elements"], items):
+                if it.get("no_id"):
+                    el["value"].pop("id", None)
 
 
 def build(case):
@@ -164,7 +173,7 @@ def spell(items, k, cls):
     if cls == "alias":
         return it["alias"]
     if cls == "subvar":
-        return it["subvar_id"]
+        return it["alias"] if it.get("no_id") else it["subvar_id"]
     if cls == "int":
         return it["id"]
     if cls == "str":
